@@ -427,12 +427,10 @@ pub fn judge_supply(t: &SupplyTrace, o: &SupplyOutcome) -> SupplyJudgement {
             for v in o.verdicts.iter().filter(|v| v.ok) {
                 if let Some(s) = &v.summary {
                     if !pm.is_empty() && !pm.contains(&s["materials"]) {
-                        f.push(finding("C02", "non-counting-evidence-used", format!("the returned summary's materials {} are not those of any evidence that counts for the first step", s["materials"])));
                         f.push(finding("C15", "summary-materials", format!("summary materials {} are not those of any counting first-step evidence", s["materials"])));
                         break;
                     }
                     if !pp.is_empty() && !pp.iter().any(|x| x.0 == s["products"]) {
-                        f.push(finding("C02", "non-counting-evidence-used", format!("the returned summary's products {} are not those of any evidence that counts for the last step", s["products"])));
                         f.push(finding("C15", "summary-products", format!("summary products {} are not those of any counting last-step evidence", s["products"])));
                         break;
                     }
